@@ -277,13 +277,16 @@ func Sequential(jobs []Job) []string {
 
 // Concurrent runs K goroutines; goroutine g owns a Worker and executes the whole job list `reps`
 // times starting at a goroutine-specific offset (so that different symbologies overlap in time),
-// released together by a barrier after a randomised spin.  Returns the results that differ from want.
-func Concurrent(jobs []Job, want []string, k, reps, procs int, seed uint64) []string {
+// released together by a barrier after a randomised spin.  It returns, per goroutine, the result
+// of every job (last pass) and a list of results that changed between passes of one goroutine.
+// Callers compare with Sequential computed AFTERWARDS, so that the concurrent phase also covers
+// the cold start (first use of every table / lazily built structure).
+func Concurrent(jobs []Job, k, reps, procs int, seed uint64) (results [][]string, unstable []string) {
 	old := runtime.GOMAXPROCS(procs)
 	defer runtime.GOMAXPROCS(old)
 	var mu sync.Mutex
-	var bad []string
 	var wg sync.WaitGroup
+	results = make([][]string, k)
 	start := make(chan struct{})
 	for g := 0; g < k; g++ {
 		wg.Add(1)
@@ -293,6 +296,7 @@ func Concurrent(jobs []Job, want []string, k, reps, procs int, seed uint64) []st
 			w := NewWorker()
 			off := r.intn(len(jobs))
 			spin := r.intn(2000)
+			res := make([]string, len(jobs))
 			<-start
 			x := 0
 			for i := 0; i < spin; i++ {
@@ -303,18 +307,33 @@ func Concurrent(jobs []Job, want []string, k, reps, procs int, seed uint64) []st
 				for i := range jobs {
 					idx := (i + off) % len(jobs)
 					got := w.Run(jobs[idx])
-					if got != want[idx] {
+					if rep > 0 && got != res[idx] {
 						mu.Lock()
-						if len(bad) < 20 {
-							bad = append(bad, fmt.Sprintf("job %d goroutine %d: got %s want %s", idx, g, got, want[idx]))
+						if len(unstable) < 20 {
+							unstable = append(unstable, fmt.Sprintf("job %d goroutine %d pass %d: got %s, earlier pass %s", idx, g, rep, got, res[idx]))
 						}
 						mu.Unlock()
 					}
+					res[idx] = got
 				}
 			}
+			results[g] = res
 		}(g)
 	}
 	close(start)
 	wg.Wait()
+	return results, unstable
+}
+
+// Compare lists the concurrent results that differ from the sequential ones.
+func Compare(results [][]string, want []string) []string {
+	var bad []string
+	for g, res := range results {
+		for idx, got := range res {
+			if got != want[idx] && len(bad) < 20 {
+				bad = append(bad, fmt.Sprintf("job %d goroutine %d: got %s want %s", idx, g, got, want[idx]))
+			}
+		}
+	}
 	return bad
 }
